@@ -110,11 +110,12 @@ def run(ctx):
             fr, _ = P.res_path_lit(lambda: cayleypy.find_path(G.make_graph(gd, cfgd), list(q), **kwj))
             if fr != r:
                 ctx.violation("property_fails", f"find_path answers {r} after earlier calls but {fr} on a fresh graph", case, True)
-        if stress and len(layers) >= 4:
-            # many more start states between D and 2D (implementation against the reference distances only; the model replays the queries above)
+        if len(layers) >= 4:
+            # many more start states between D and 2D (implementation against the reference distances only; the model replays the queries above);
+            # on coset graphs (not vertex-transitive) the neighbourhood of a start state may grow faster than the ball around the central state
             deff = eff_depth(kw)
             ring = sorted(s for s, d in dist_to_c.items() if deff < d <= 2 * deff)
-            for q in rng.sample(ring, min(len(ring), ctx.budget(40, 200))):
+            for q in rng.sample(ring, min(len(ring), ctx.budget(40, 200) if stress else ctx.budget(15, 100))):
                 r, _ = P.res_path_lit(lambda: cayleypy.find_path(graph, list(q), **kw))
                 ctx.count("fp_stress_ring_queries")
                 msg = check_fp(gd, dist_to_c, deff, q, r)
